@@ -178,6 +178,13 @@ def length(xs):
 def at(xs, i):
     if hasattr(xs, "sym_at"):
         return xs.sym_at(i)
+    if is_sym(i):
+        r = xs[-1] if len(xs) else 0
+        for k in range(len(xs) - 2, -1, -1):
+            r = ite(i == k, xs[k], r)
+        return r
+    if not 0 <= i < len(xs):
+        return 0  # out of range: only ever used under a guard that excludes it (total function for specs)
     return xs[i]
 
 
